@@ -21,6 +21,7 @@ Inductive sop :=
 | SWrite (kvd reld : list (N * option N)) (is_rel ok_impl ok_ref : bool)
 | SCheckpoint (name now : N) (ok : bool)
 | SRollback (name : N) (ok : bool)
+| SRollbackId (k : N) (ok : bool)      (* ROLLBACK TO '<id>' of the k-th checkpoint created by the script (0-based) *)
 | SList.
 
 Definition apply_delta (put : N -> N -> op) (del : N -> op) (d : N * option N) : op :=
@@ -31,6 +32,7 @@ Definition model_step (c : cfg) (s : state) (o : sop) : state :=
       run c s (map (apply_delta OPutKV ODelKV) kvd ++ map (apply_delta OPutRel ODelRel) reld)
   | SCheckpoint name now _ => step c s (OCheckpoint name now)
   | SRollback name _ => step c s (ORollback name)
+  | SRollbackId k _ => step c s (ORollbackId (N.to_nat k))
   | SList => s
   end.
 
@@ -61,7 +63,8 @@ Definition in_cat (cat : list cp) (name : N) : bool := existsb (fun c => N.eqb (
 
 (* the property oracle for one step, on the implementation's own observations.
    wstate: spec catalogue, digests recorded at checkpoint time, "a rollback has happened" *)
-Record wstate := W { w_cat : list cp; w_q : list (N * (N * N * N)); w_rb : bool; w_n : nat }.
+Record wstate := W { w_cat : list cp; w_q : list (N * (N * N * N)); w_qi : list (N * (N * N * N)); w_rb : bool; w_n : nat }.
+Definition in_cat_id (cat : list cp) (k : N) : bool := existsb (fun c => Nat.eqb (cp_img c) (N.to_nat k)) cat.
 
 Definition cat_verdict (w : wstate) (o : obs) : N :=
   if list_eqb N.eqb (spec_names (w_cat w)) (o_cat o) then 0 else if w_rb w then 11 else 2.
@@ -73,14 +76,26 @@ Definition oracle_step (max : nat) (w : wstate) (sp : sop) (o : obs) : wstate * 
                 (cat_verdict w o))
   | SCheckpoint name now ok =>
       let cat' := enforce max (w_cat w ++ [CP name now (w_n w)]) in
-      let w' := W cat' ((name, o_q o) :: w_q w) (w_rb w) (S (w_n w)) in
+      let w' := W cat' ((name, o_q o) :: w_q w) ((N.of_nat (w_n w), o_q o) :: w_qi w) (w_rb w) (S (w_n w)) in
       (w', if negb ok then 2 else cat_verdict w' o)
   | SRollback name ok =>
-      let w' := W (w_cat w) (w_q w) (ok || w_rb w) (w_n w) in
+      let w' := W (w_cat w) (w_q w) (w_qi w) (ok || w_rb w) (w_n w) in
       if in_cat (w_cat w) name then
         if negb ok then (w', if w_rb w then 11 else 2)
         else
           match aget (w_q w) name with
+          | Some q =>
+              let here := if q3_eqb q (o_q o) then 0 else if q3_nonrel_eqb q (o_q o) then 10 else 2 in
+              (w', worse here (cat_verdict w' o))
+          | None => (w', 9)
+          end
+      else (w', if ok then (if w_rb w then 11 else 2) else cat_verdict w o)
+  | SRollbackId k ok =>
+      let w' := W (w_cat w) (w_q w) (w_qi w) (ok || w_rb w) (w_n w) in
+      if in_cat_id (w_cat w) k then
+        if negb ok then (w', if w_rb w then 11 else 2)
+        else
+          match aget (w_qi w) k with
           | Some q =>
               let here := if q3_eqb q (o_q o) then 0 else if q3_nonrel_eqb q (o_q o) then 10 else 2 in
               (w', worse here (cat_verdict w' o))
@@ -112,7 +127,7 @@ Definition check_script (c : script_case) : N :=
   let '(max, steps) := c in
   if negb (well_formed steps) then 9
   else
-    let '(sev, agree) := walk (the_cfg max) init (W [] [] false 0) steps 0 true in
+    let '(sev, agree) := walk (the_cfg max) init (W [] [] [] false 0) steps 0 true in
     if N.eqb sev 2 then V_VIOLATION
     else if N.eqb sev 9 then 9
     else if negb agree then V_MISMATCH
